@@ -149,7 +149,7 @@ package value
 //@     (a.typ == nilT && b.typ == nilT) || (a.typ == functionT && b.typ == functionT)))))
 //@ func (*Type).StrictEq [C11,C05]
 //@   requires t != nil && valid(*t) && valid(b)
-//@   loop 0 invariant[ri] -1 <= rangeindex && rangeindex < len(aVal)
+//@   loop 0 invariant[ri] -1 <= rangeindex && rangeindex < len(t.a())
 //@   ensures[scalar] !(t.typ == arrayT && b.typ == arrayT) ==> result == strictScalar(*t, b)
 //@   ensures[arr_len] t.typ == arrayT && b.typ == arrayT && len(t.a()) != len(b.a()) ==> !result
 //@ func (*Type).WeakEq [C11,C05]
@@ -159,7 +159,7 @@ package value
 //@   ensures[function]   t.typ == functionT && b.typ == functionT ==> result0 == false && result1 == nil
 //@   ensures[arr_len]    t.typ == arrayT && b.typ == arrayT && len(t.a()) != len(b.a()) ==> result0 == false && result1 == nil
 //@   ensures[no_error_true] result0 ==> result1 == nil
-//@   loop 0 invariant[ri] -1 <= rangeindex && rangeindex < len(aVal)
+//@   loop 0 invariant[ri] -1 <= rangeindex && rangeindex < len(t.a())
 //
 //@ func (Type).Eq [C11,C05]
 //@   requires valid(t) && valid(b) && (op == bytecode.EQ || op == bytecode.NE)
